@@ -72,3 +72,28 @@ def explore(out, tier, second=0):
                 if key not in worst:
                     worst[key] = (dict(x, held_at=held, hold=h), dict(sc, hold=h))
     return worst, n
+
+
+def run(out, tier, rng, work):
+    import json
+    out.rule = ('exhaustive single pre-emption: for RTS/CTS (windows 1, 2, all) and BAM on both layers, the real job thread of either stack is '
+                'parked at its k-th executed line of the package for 0.7 ms (thorough: 0.2, 0.7, 5 ms) of bus time, for EVERY k of the run, '
+                'while reception on the same stack goes on; oracle: payload delivered intact exactly once, both sides idle, job threads '
+                'alive; plus the reflection theorem on the extracted shared-access skeletons; non-trivial = every hold (each is a distinct schedule)')
+    out.assumptions = ['pre-emption inside a bytecode / dict operation, and the receive thread being pre-empted by the job thread, are not exhibited',
+                       'the rely (which tables other methods delete from) is extracted syntactically; its soundness is covered by the correspondence of table contents (C01/C02)',
+                       'serialisability of the send windows (T08.2) is not proved: the outcome level is by exhaustive exploration (testing)']
+    out.extra['partial'] = ['T08.2 (commutation of the reply handlers with the rest of the pass) not proved']
+    C.std_proof_stage(out, 'C08', FILES)
+    worst, n = explore(out, tier)
+    out.extra['holds_explored'] = n
+    out.extra['exhaustive'] = True
+    # corpus: recorded schedules
+    import sprop
+    for name, sc in sprop.load_corpus('C08'):
+        res = runner(sc)
+        out.add_case(('corpus', name), True)
+        for x in oracle(sc, res):
+            worst.setdefault(x['kind'], (dict(x, corpus=name), sc))
+    for kind, (x, sc) in worst.items():
+        out.violation('%s: %s' % (kind, json.dumps(x, default=str)[:300]), dict(kind=kind), dict(broke='oracle', scenario=sc, violation=x))
